@@ -506,6 +506,10 @@ pub fn c13_smooth(a: &Args) -> Report {
         };
         for pr in [Prayer::Fajr, Prayer::Shurooq, Prayer::Dhuhr, Prayer::Asr, Prayer::Maghrib, Prayer::Isha] {
             if let (Some(x), Some(y), Some(z)) = (secs(&ts[0], pr), secs(&ts[1], pr), secs(&ts[2], pr)) {
+                // a reading within 10 min of clock midnight may belong to the neighbouring civil day (day seam): not compared
+                if [x, y, z].iter().any(|s| *s < 600. || *s > 85800.) {
+                    continue;
+                }
                 let d1 = sdiff(y, x);
                 let d2 = sdiff(z, y);
                 // truncated seconds: each reading is up to 1 s low => second difference slack 2 s, first difference 1 s
@@ -521,7 +525,9 @@ pub fn c13_smooth(a: &Args) -> Report {
         }
     };
     for k in 0..n {
-        let c = any_case(&mut rng, k, 45., 2.);
+        // a quarter of the cases with a civil zone up to 4.5 h away from local mean time (times then cross clock midnight;
+        // differences are taken on the 24 h circle)
+        let c = any_case(&mut rng, k, 45., if k % 4 == 3 { 4. } else { 2. });
         triple(&mut rep, &c, ANGLE_METHODS[(k % 6) as usize]);
         rep.distinct_nontrivial += 1;
     }
